@@ -129,6 +129,6 @@ Definition v1_entries (align : bool) (pl : nat) (lens : list nat) : list entry :
 Definition v1_assemble (isfile align : bool) (pl : nat) (files : list bytes)
   : option (list entry) * bytes :=
   if isfile then (None, concat (hasher_pieces false pl files))
-  else (Some (v1_entries align pl (map (@length byte) files)), concat (hasher_pieces align pl files)).
+  else (Some (v1_entries align pl (map (@length ascii) files)), concat (hasher_pieces align pl files)).
 
 End Hasher.
